@@ -38,7 +38,7 @@ if [ "${1:-}" = "build" ]; then
 fi
 
 PROP="${1:?property id}"
-MODE="${2:-quick}"
+MODE="${2:-${VERIF_TIER:-quick}}"
 if [ "$MODE" = "--replay" ]; then
   FILE="${3:?replay file}"
   build_plain || { echo "INCONCLUSIVE property=$PROP reason=build-failed"; exit 2; }
@@ -46,7 +46,7 @@ if [ "$MODE" = "--replay" ]; then
   if [ "$PROP" = "C17" ]; then build_race || { echo "INCONCLUSIVE property=$PROP reason=race-build-failed"; exit 2; }; RB="-racebin $BIN/verifcheck-race"; fi
   exec "$BIN/verifcheck" replay -file "$FILE" $RB
 fi
-TIER="${VERIF_TIER:-$MODE}"
+TIER="$MODE"   # an explicit mode on the command line wins over VERIF_TIER
 build_plain || { echo "INCONCLUSIVE property=$PROP reason=build-failed (the harness no longer compiles against /repo)"; exit 2; }
 RB=""
 if needs_race "$PROP" "$TIER"; then
